@@ -85,10 +85,11 @@ V10_PARSE_SECTIONS = ["V10_parse.parse_tag_section.*", "V10_parse.fn:parse_tag_s
                       "V10_parse.InitExpr.eval.*", "V10_parse.fn:InitExpr::eval", "V10_parse.fn:eval_spec",
                       "V10_parse.parse_table_section.*", "V10_parse.fn:parse_table_section", "V10_parse.fn:Table::new"]
 # what PARSING establishes for the three index spaces: ids are positions, imports first (the base case of fwf / gwf / mwf and of reindex_ready)
-PARSE_IDS_FUNCS = ["V10_parse.build_functions.*", "V10_parse.fn:build_functions", "V10_parse.parse_import_section.*", "V10_parse.fn:parse_import_section", "V10_parse.ModuleImports.new.*",
+PARSE_CONTAINERS = ["V6b_api2.Functions.new.*", "V6b_api2.fn:Functions::new", "V6b_api2.Memories.new.*", "V6b_api2.fn:Memories::new", "V6b_api2.ModuleExports.new.*", "V6b_api2.fn:ModuleExports::new", "V6b_api2.ModuleTables.new.*", "V6b_api2.fn:ModuleTables::new"]
+PARSE_IDS_FUNCS = ["V6b_api2.Functions.new.*", "V6b_api2.fn:Functions::new", "V10_parse.build_functions.*", "V10_parse.fn:build_functions", "V10_parse.parse_import_section.*", "V10_parse.fn:parse_import_section", "V10_parse.ModuleImports.new.*",
                    "V10_parse.fn:ModuleImports::new", "V10_parse.fn:ModuleImports::iter", "V10_parse.fn:lemma_n_func_imports_le", "V10_parse.fn:Function::new", "V10_parse.fn:ImportedFunction::new"]
 PARSE_IDS_GLOBALS = ["V6b_api2.ModuleGlobals.new.*", "V6b_api2.fn:ModuleGlobals::new", "V6b_api2.fn:lemma_n_glob_imports_le", "V6b_api2.fn:ModuleImports::iter"]
-PARSE_IDS_MEMS = ["V6b_api2.build_memories.*", "V6b_api2.fn:Module::build_memories", "V6b_api2.fn:Memory::new", "V6b_api2.fn:lemma_n_mem_imports_le"]
+PARSE_IDS_MEMS = ["V6b_api2.Memories.new.*", "V6b_api2.fn:Memories::new", "V6b_api2.build_memories.*", "V6b_api2.fn:Module::build_memories", "V6b_api2.fn:Memory::new", "V6b_api2.fn:lemma_n_mem_imports_le"]
 PARSE_IDS_GLUE = "that the three re-indexing preconditions hold for a freshly parsed module is decided for each index space on the code that builds it at the end of parse_internal (functions: V10 region build_functions; globals: ModuleGlobals::new; memories: V6b region build_memories - ids are positions, imports first, counters = numbers of imports of each kind); that these pieces are put into the Module unchanged (the struct literal at the end of parse_internal) is read off the text"
 V13_CONSTEXPR = ["V13_constexpr.to_wasmencoder_type.*", "V13_constexpr.fn:InitExpr::to_wasmencoder_type"]
 V13_TRUST = "TRUSTED model of wasm-encoder's instruction encoder (V13): a byte buffer is viewed as the sequence of constant instructions encoded into it and `<instruction>.encode(&mut bytes)` appends one; rule R26 writes each such expression as a call of a named emitter (one per variant / field order), so which variant is written with which operands is read off the code; ConstExpr::raw keeps the bytes; wasmparser's UnpackedIndex is one of module index / rec-group index / core type id"
@@ -118,7 +119,7 @@ PROPS = {
     "C02": {
         "title": "Unmodified round trip preserves module content",
         "units": ["V3_remap", "V9b_conv", "V11_emit", "V12_sections", "V10_parse", "V13_constexpr", "V14_types_emit", "V17_encode_skeleton", "V6b_api2", "V18_parse_types", "V19_parse_code"],
-        "obligations_extra": V14_TYPES + V13_CONSTEXPR + V10_PARSE_SECTIONS + V11_EMIT + V11_CODE + V12_TAGS + V12_TABLES + V12_ELEMS + V12_CEXPR + V12_IMPORTS + V12_EXPORTS + V12_START + V12_DATA + V12_GLOBALS + V12_MEMS + V12_CUSTOM + V17_SKELETON + PARSE_IDS_FUNCS + PARSE_IDS_GLOBALS + PARSE_IDS_MEMS + V18_TYPES + V19_CODE
+        "obligations_extra": V14_TYPES + V13_CONSTEXPR + V10_PARSE_SECTIONS + V11_EMIT + V11_CODE + V12_TAGS + V12_TABLES + V12_ELEMS + V12_CEXPR + V12_IMPORTS + V12_EXPORTS + V12_START + V12_DATA + V12_GLOBALS + V12_MEMS + V12_CUSTOM + V17_SKELETON + PARSE_IDS_FUNCS + PARSE_IDS_GLOBALS + PARSE_IDS_MEMS + V18_TYPES + V19_CODE + PARSE_CONTAINERS
                              + ["V12_sections.encode_type_section.groups_in_order_explicit_ones_as_one_rec_entry", "V12_sections.fn:Module::encode_type_section", "V12_sections.encode_names.*", "V12_sections.fn:Module::encode_names"],
         "kani": ["k1_valtype_roundtrip", "k1_valtype_roundtrip_exn_cont", "k1_valtype_encoder_matches_upstream", "k4_v128_bytes_preserved", "k4_ieee32_from_float_bits", "k4_ieee64_from_float_bits"],
         "kani_thorough": ["k5_spec_global_get", "k5_spec_ref_func", "k5_spec_struct_new", "k5_spec_struct_new_default", "k5_spec_array_new", "k5_spec_array_new_default", "k5_spec_ref_i31"],   # about 4 min of CBMC together: thorough tier only
@@ -190,7 +191,7 @@ PROPS = {
     },
     "C06": {
         "title": "Function references stay bound to the same function across edits",
-        "units": ["V2_reindex", "V3_remap", "V6_api", "V11_emit", "V12_sections", "V10_parse", "V13_constexpr"],
+        "units": ["V2_reindex", "V3_remap", "V6_api", "V11_emit", "V12_sections", "V10_parse", "V13_constexpr", "V6b_api2"],
         "kani_thorough": ["k5_spec_ref_func"],
         "obligations": ["K:k5_spec_ref_func"] + V2_GENERIC + v2_inst("Function", "Functions") + V6_FUNCS + [
             "V3_remap.refers_to_func.*", "V3_remap.fn:refers_to_func", "V3_remap.update_fn_instr.*", "V3_remap.fn:update_fn_instr",
@@ -233,7 +234,7 @@ PROPS = {
     },
     "C10": {
         "title": "Replacing an import with a built function redirects all its uses",
-        "units": ["V6_api", "V2_reindex", "V3_remap", "V12_sections"],
+        "units": ["V6_api", "V2_reindex", "V3_remap", "V12_sections", "V6b_api2"],
         "obligations": ["V6_api.convert_import_fn_to_local.*", "V6_api.fn:Module::convert_import_fn_to_local", "V6_api.delete_func.*", "V6_api.fn:Module::delete_func",
                         "V6_api.fn:Function::set_kind", "V6_api.fn:Functions::get_mut", "V6_api.Functions.get_fid_of_import.*", "V6_api.fn:Functions::get_fid_of_import", "V6_api.fn:lemma_first_defined_by", "V6_api.ModuleImports.delete.*", "V6_api.fn:ModuleImports::delete",
                         "V6_api.replace_import.*", "V6_api.fn:FunctionBuilder::replace_import_in_module_with_tag", "V6_api.fn:ModuleImports::get", "V6_api.fn:Types::params", "V6_api.fn:Types::results"]
@@ -244,7 +245,7 @@ PROPS = {
     },
     "C11": {
         "title": "Converting a local function to an import redirects all its uses",
-        "units": ["V6_api", "V2_reindex", "V3_remap", "V12_sections"],
+        "units": ["V6_api", "V2_reindex", "V3_remap", "V12_sections", "V6b_api2"],
         "obligations": ["V6_api.convert_local_fn_to_import.*", "V6_api.fn:Module::convert_local_fn_to_import_with_tag", "V6_api.kf.convert_local_fn_to_import.*",
                         "V6_api.fn:Module::add_import", "V6_api.ModuleImports.add.*", "V6_api.fn:ModuleImports::add", "V6_api.fn:Functions::set_imported_fn_name",
                         "V2_reindex.lemma.import_order_survives_reorganisation", "V2_reindex.fn:lemma_import_order_preserved", "V2_reindex.fn:lemma_origin_monotone_on_imports"]
